@@ -5,6 +5,7 @@ package main
 
 import (
 	"fmt"
+	"os"
 	"go/ast"
 	"go/token"
 	"go/types"
@@ -133,34 +134,66 @@ func (fx *FnExec) loopsOf(fn *ssa.Function) []*Loop {
 			})
 		}
 	}
-	minPos := func(lp *Loop) token.Pos {
-		var m token.Pos
+	// match every SSA loop to the innermost for/range statement that contains all of its
+	// positioned (non-phi) instructions; the ordinal is the statement's index in source order
+	for _, lp := range ls {
+		var ps []token.Pos
 		for b := range lp.blocks {
 			for _, in := range b.Instrs {
-				if p := in.Pos(); p.IsValid() && (m == 0 || p < m) {
-					m = p
-				}
-				if d, ok := in.(*ssa.DebugRef); ok {
-					if p := d.Expr.Pos(); p.IsValid() && (m == 0 || p < m) {
-						m = p
+				switch x := in.(type) {
+				case *ssa.Phi:
+				case *ssa.DebugRef:
+					if _, isPhi := x.X.(*ssa.Phi); !isPhi && x.Expr.Pos().IsValid() {
+						ps = append(ps, x.Expr.Pos())
+					}
+				default:
+					if p := in.Pos(); p.IsValid() {
+						ps = append(ps, p)
 					}
 				}
 			}
 		}
-		return m
+		best := -1
+		for i, s := range stmts {
+			if len(ps) == 0 {
+				break
+			}
+			all := true
+			for _, p := range ps {
+				if p < s.Pos() || p > s.End() {
+					all = false
+					break
+				}
+			}
+			if all && (best < 0 || (stmts[best].Pos() <= s.Pos() && s.End() <= stmts[best].End())) {
+				best = i
+			}
+		}
+		if best >= 0 {
+			lp.stmt = stmts[best]
+			lp.ordinal = best + 1
+		}
 	}
-	sort.SliceStable(ls, func(i, j int) bool {
-		pi, pj := minPos(ls[i]), minPos(ls[j])
-		if pi != pj {
-			return pi < pj
+	// loops that could not be matched get ordinals after the matched ones (contracts will not bind to them)
+	used := map[int]bool{}
+	for _, lp := range ls {
+		if lp.ordinal > 0 {
+			if used[lp.ordinal] {
+				lp.ordinal, lp.stmt = 0, nil
+			} else {
+				used[lp.ordinal] = true
+			}
 		}
-		return len(ls[i].blocks) > len(ls[j].blocks)
-	})
-	for i, lp := range ls {
-		lp.ordinal = i + 1
-		if i < len(stmts) {
-			lp.stmt = stmts[i]
+	}
+	next := len(stmts) + 1
+	for _, lp := range ls {
+		if lp.ordinal == 0 {
+			lp.ordinal = next
+			next++
 		}
+	}
+	sort.SliceStable(ls, func(i, j int) bool { return ls[i].ordinal < ls[j].ordinal })
+	for _, lp := range ls {
 		for _, in := range lp.header.Instrs {
 			if ph, ok := in.(*ssa.Phi); ok && ph.Comment == "rangeindex" {
 				lp.rangeIdx = ph
@@ -171,12 +204,6 @@ func (fx *FnExec) loopsOf(fn *ssa.Function) []*Loop {
 			if u, ok := in.(*ssa.UnOp); ok && u.Op == token.ARROW {
 				lp.enumKey = fx.enumKeyFor(u.X)
 			}
-		}
-	}
-	if len(stmts) != len(ls) {
-		// cannot match loops to statements reliably: contracts with loop ordinals become stale
-		for _, lp := range ls {
-			lp.stmt = nil
 		}
 	}
 	if fx.loops == nil {
@@ -716,6 +743,10 @@ func (fx *FnExec) resolveLocal(st *State, lp *Loop, name string) (Val, bool) {
 	if !ok || tv.Parent() == nil || tv.Parent() == tv.Pkg().Scope() {
 		return Val{}, false
 	}
+	if os.Getenv("GOVC_DEBUG") != "" {
+		v, ok := fx.valueOfVar(st, lp, tv)
+		fmt.Fprintf(os.Stderr, "resolve %s in loop %d of %s: obj@%v -> %v %v\n", name, lp.ordinal, lp.fn.Name(), fx.eng.fset.Position(tv.Pos()), v.T, ok)
+	}
 	return fx.valueOfVar(st, lp, tv)
 }
 
@@ -748,27 +779,63 @@ func (fx *FnExec) valueOfVar(st *State, lp *Loop, tv *types.Var) (Val, bool) {
 	}
 	// debug references
 	var inLoopPhi, inHeaderPure, outside ssa.Value
+	sawInstr := false
+	// candidate values of the variable: what debug references say, plus the operands of
+	// the phi nodes among them (a definition that is only ever merged is not referenced itself)
+	type cand struct {
+		x   ssa.Value
+		blk *ssa.BasicBlock // block of the referring instruction
+	}
+	var cands []cand
+	seenV := map[ssa.Value]bool{}
+	var addC func(x ssa.Value, blk *ssa.BasicBlock)
+	addC = func(x ssa.Value, blk *ssa.BasicBlock) {
+		if seenV[x] {
+			return
+		}
+		seenV[x] = true
+		cands = append(cands, cand{x, blk})
+		if ph, ok := x.(*ssa.Phi); ok {
+			for _, e := range ph.Edges {
+				if _, isC := e.(*ssa.Const); !isC {
+					addC(e, ph.Block())
+				}
+			}
+		}
+	}
 	for _, b := range fn.Blocks {
 		for _, in := range b.Instrs {
 			d, ok := in.(*ssa.DebugRef)
 			if !ok || d.Object() != tv || d.IsAddr {
 				continue
 			}
-			x := d.X
-			xi, isInstr := x.(ssa.Instruction)
-			switch {
-			case isInstr && xi.Block() == lp.header:
-				if _, isPhi := x.(*ssa.Phi); isPhi {
-					inLoopPhi = x
-				} else if lp.blocks[b] {
-					inHeaderPure = x
-				}
-			case !isInstr:
-				outside = x // parameter / constant
-			case isInstr && !lp.blocks[xi.Block()] && xi.Block().Dominates(lp.header):
-				outside = x // keep the last one in block order
-			}
+			addC(d.X, b)
 		}
+	}
+	for _, c := range cands {
+		x, b := c.x, c.blk
+		xi, isInstr := x.(ssa.Instruction)
+		switch {
+		case isInstr && xi.Block() == lp.header:
+			if _, isPhi := x.(*ssa.Phi); isPhi {
+				inLoopPhi = x
+			} else if lp.blocks[b] {
+				inHeaderPure = x
+			}
+		case !isInstr:
+			if !sawInstr {
+				outside = x // parameter / constant: only when nothing better is known
+			}
+		case isInstr && !lp.blocks[xi.Block()] && xi.Block().Dominates(lp.header):
+			if _, isPhi := x.(*ssa.Phi); isPhi && outside != nil && sawInstr {
+				continue
+			}
+			outside = x
+			sawInstr = true
+		}
+	}
+	if os.Getenv("GOVC_DEBUG") != "" {
+		fmt.Fprintf(os.Stderr, "  valueOfVar %s: phi=%v pure=%v outside=%v\n", tv.Name(), inLoopPhi, inHeaderPure, outside)
 	}
 	switch {
 	case inLoopPhi != nil:
@@ -816,21 +883,21 @@ func (fx *FnExec) evalPure(st *State, v ssa.Value, d int) (Val, bool) {
 }
 
 func isRangeIndexPhi(ph *ssa.Phi) bool {
-	if len(ph.Edges) != 2 {
-		return false
-	}
-	okInit, okStep := false, false
+	nInit, nStep := 0, 0
 	for _, e := range ph.Edges {
 		if c, ok := e.(*ssa.Const); ok && c.Value != nil && c.Value.ExactString() == "-1" {
-			okInit = true
+			nInit++
+			continue
 		}
 		if b, ok := e.(*ssa.BinOp); ok && b.Op == token.ADD && b.X == ssa.Value(ph) {
 			if c, ok := b.Y.(*ssa.Const); ok && c.Value != nil && c.Value.ExactString() == "1" {
-				okStep = true
+				nStep++
+				continue
 			}
 		}
+		return false
 	}
-	return okInit && okStep
+	return nInit == 1 && nStep >= 1
 }
 
 // rangeBound returns the loop-invariant bound of a range-over-slice loop: header is
@@ -1020,7 +1087,21 @@ func (fx *FnExec) lenOf(st *State, v Val) Val {
 	if v.GT != nil {
 		if m, ok := v.GT.Underlying().(*types.Map); ok {
 			eng.regMap(m)
-			return Val{T: sel(eng.heapGet(st, mapLen), v.T), S: SInt}
+			ln := sel(eng.heapGet(st, mapLen), v.T)
+			// map model: the length is the cardinality of the domain (maintained by insert/delete).
+			// T-CARD, instantiated for this domain: facts about cardinalities 0, 1 and 2 of a finite set.
+			ks := eng.sorts.sortOf(m.Key())
+			d := eng.define(st, "dom", "(Array "+ks+" Bool)", sel(eng.heapGet(st, mapDom(m)), v.T))
+			l := eng.define(st, "maplen", SInt, ln)
+			x, y, z := eng.freshName("x"), eng.freshName("y"), eng.freshName("z")
+			eng.assumptions["T-CARD: len(m) of a map is the cardinality of its key set; for a finite set S: |S|>=0; |S|>=1 iff S has a member; |S|<=1 iff any two members are equal; |S|<=2 iff among any three members two are equal"] = true
+			st.assume("(>= " + l + " 0)")
+			st.assume("(forall ((" + x + " " + ks + ")) (! (=> (select " + d + " " + x + ") (>= " + l + " 1)) :pattern ((select " + d + " " + x + "))))")
+			st.assume("(=> (>= " + l + " 1) (exists ((" + x + " " + ks + ")) (select " + d + " " + x + ")))")
+			st.assume("(= (<= " + l + " 1) (forall ((" + x + " " + ks + ") (" + y + " " + ks + ")) (! (=> (and (select " + d + " " + x + ") (select " + d + " " + y + ")) (= " + x + " " + y + ")) :pattern ((select " + d + " " + x + ") (select " + d + " " + y + ")))))")
+			st.assume("(= (<= " + l + " 2) (forall ((" + x + " " + ks + ") (" + y + " " + ks + ") (" + z + " " + ks + ")) (! (=> (and (select " + d + " " + x + ") (select " + d + " " + y + ") (select " + d + " " + z + ")) (or (= " + x + " " + y + ") (= " + x + " " + z + ") (= " + y + " " + z + "))) :pattern ((select " + d + " " + x + ") (select " + d + " " + y + ") (select " + d + " " + z + ")))))")
+			ln = l
+			return Val{T: ln, S: SInt}
 		}
 	}
 	fx.unsupp("len of %s", v.S)
